@@ -1,9 +1,9 @@
 package main
 
 import (
-	"go/types"
 	"fmt"
 	"go/constant"
+	"go/types"
 	"strings"
 
 	"golang.org/x/tools/go/ssa"
@@ -44,7 +44,9 @@ func runC12(c *Ctx) {
 			_, noReq := hasFact(fs, func(f Fact) bool {
 				return f.Pol && f.T.Op == "bin" && f.T.Name == "==" && rootParam(f.T.Args[0]) == 1 && f.T.Args[1].isNilConst()
 			})
-			_, pendingPhase := hasFact(fs, func(f Fact) bool { return f.Pol && strings.Contains(f.T.String(), ".Status.Phase") && strings.Contains(f.T.String(), "Pending") })
+			_, pendingPhase := hasFact(fs, func(f Fact) bool {
+				return f.Pol && strings.Contains(f.T.String(), ".Status.Phase") && strings.Contains(f.T.String(), "Pending")
+			})
 			_, unbound := hasFact(fs, func(f Fact) bool {
 				return strings.Contains(f.T.String(), ".Spec.NodeName") && strings.Contains(f.T.String(), "builtin.len")
 			})
@@ -347,26 +349,36 @@ func runC12(c *Ctx) {
 		}, 2) {
 			in := h.In
 			fs := fx.factsAtDeep(h)
-			_, limSet := hasFact(fs, func(f Fact) bool { return !f.Pol && f.T.Op == "bin" && f.T.Name == "==" && f.T.Args[0].lastField() == "BackoffLimit" && f.T.Args[1].isNilConst() })
+			_, limSet := hasFact(fs, func(f Fact) bool {
+				return !f.Pol && f.T.Op == "bin" && f.T.Name == "==" && f.T.Args[0].lastField() == "BackoffLimit" && f.T.Args[1].isNilConst()
+			})
 			_, below := hasFact(fs, func(f Fact) bool {
 				return f.Pol && f.T.Op == "bin" && f.T.Name == "<" && f.T.Args[0].lastField() == "FailedAttempts" && strings.Contains(f.T.Args[1].String(), "BackoffLimit")
 			})
-			_, failed := hasFact(fs, func(f Fact) bool { return !f.Pol && f.T.Op == "bin" && f.T.Name == "==" && rootParam(f.T.Args[0]) == 4 && f.T.Args[1].isNilConst() })
+			_, failed := hasFact(fs, func(f Fact) bool {
+				return !f.Pol && f.T.Op == "bin" && f.T.Name == "==" && rootParam(f.T.Args[0]) == 4 && f.T.Args[1].isNilConst()
+			})
 			c.Check(limSet && below && failed, "O5", "ABS", funcKey(us)+": a retry is scheduled iff limit set ∧ attempts < limit ∧ the attempt failed", instrPos(in), "BackoffLimit != nil ∧ FailedAttempts < *BackoffLimit ∧ err != nil", "the binder's retry condition no longer complements the scheduler's terminal condition")
 		}
 	}
 	if isFailed != nil {
 		// IsFailed ⇔ phase Failed ∧ (limit nil ∨ attempts ≥ limit)
 		for i, rp := range fx.retPaths(isFailed, 0, WantTrue) {
-			_, ph := hasFact(rp.Facts, func(f Fact) bool { return f.Pol && f.T.Op == "bin" && f.T.Name == "==" && f.T.Args[0].lastField() == "Phase" })
-			_, nilLim := hasFact(rp.Facts, func(f Fact) bool { return f.Pol && f.T.Op == "bin" && f.T.Name == "==" && f.T.Args[0].lastField() == "BackoffLimit" && f.T.Args[1].isNilConst() })
+			_, ph := hasFact(rp.Facts, func(f Fact) bool {
+				return f.Pol && f.T.Op == "bin" && f.T.Name == "==" && f.T.Args[0].lastField() == "Phase"
+			})
+			_, nilLim := hasFact(rp.Facts, func(f Fact) bool {
+				return f.Pol && f.T.Op == "bin" && f.T.Name == "==" && f.T.Args[0].lastField() == "BackoffLimit" && f.T.Args[1].isNilConst()
+			})
 			_, reached := hasFact(rp.Facts, func(f Fact) bool {
 				return f.Pol && f.T.Op == "bin" && f.T.Name == "<=" && strings.Contains(f.T.Args[0].String(), "BackoffLimit") && f.T.Args[1].lastField() == "FailedAttempts"
 			})
 			c.Check(ph && (nilLim || reached), "O5", "ABS", fmt.Sprintf("%s true path#%d", funcKey(isFailed), i), rp.Pos, "Failed ∧ (no limit ∨ attempts ≥ limit)", "the scheduler's terminal condition for a BindRequest is no longer 'phase Failed and (no limit or attempts ≥ limit)'")
 		}
 		for i, rp := range fx.retPaths(isFailed, 0, WantFalse) {
-			_, notPh := hasFact(rp.Facts, func(f Fact) bool { return !f.Pol && f.T.Op == "bin" && f.T.Name == "==" && f.T.Args[0].lastField() == "Phase" })
+			_, notPh := hasFact(rp.Facts, func(f Fact) bool {
+				return !f.Pol && f.T.Op == "bin" && f.T.Name == "==" && f.T.Args[0].lastField() == "Phase"
+			})
 			_, below := hasFact(rp.Facts, func(f Fact) bool {
 				return f.Pol && f.T.Op == "bin" && f.T.Name == "<" && f.T.Args[0].lastField() == "FailedAttempts" && strings.Contains(f.T.Args[1].String(), "BackoffLimit")
 			})
